@@ -66,27 +66,71 @@ pub fn gzip_wrap(r: &mut Rng, flags: u8, s: &[u8], plain: &[u8]) -> Vec<u8> {
     v
 }
 
+/// ZIP local file header (APPNOTE 4.3.7) in front of the stream. Every field the scanner has no
+/// business looking at is varied: version needed (10 / 20 / 45 / anything), general-purpose flags
+/// (data descriptor bit 3 with zeroed sizes, UTF-8 bit 11, anything), CRC and sizes (real, zero,
+/// the Zip64 sentinel 0xFFFFFFFF with the real sizes in extra field 0x0001, anything), name and
+/// extra lengths 0..300 — the property quantifies over all of them (`found_zip`: any `ZipFields`).
 pub fn zip_wrap(r: &mut Rng, s: &[u8], plain: &[u8], method: u16) -> Vec<u8> {
-    let nlen = *r.pick(&[0usize, 1, 8, 30, 300]);
-    let xlen = *r.pick(&[0usize, 0, 4, 28, 300]);
+    let nlen = *r.pick(&[0usize, 1, 8, 30, 255, 256, 300]);
+    let mut xlen = *r.pick(&[0usize, 0, 4, 28, 300]);
+    let style = r.below(8);
+    let version: u16 = match style { 0 | 1 | 2 => 20, 3 => 10, 4 => 45, 5 => 63, _ => r.next() as u16 };
+    let mut flags: u16 = match r.below(6) { 0 => 8, 1 => 0x800, 2 => 0x808, 3 => r.next() as u16, _ => 0 };
+    let (mut crc, mut csize, mut usize_) = (crc32fast::hash(plain), s.len() as u32, plain.len() as u32);
+    let mut zip64_extra: Vec<u8> = Vec::new();
+    match style {
+        4 => {
+            // Zip64: sentinel sizes, real ones in the extra field
+            csize = 0xFFFF_FFFF;
+            usize_ = 0xFFFF_FFFF;
+            flags &= !8;
+            zip64_extra.extend_from_slice(&1u16.to_le_bytes());
+            zip64_extra.extend_from_slice(&16u16.to_le_bytes());
+            zip64_extra.extend_from_slice(&(plain.len() as u64).to_le_bytes());
+            zip64_extra.extend_from_slice(&(s.len() as u64).to_le_bytes());
+            xlen = xlen.max(zip64_extra.len());
+        }
+        5 => {
+            crc = r.next() as u32;
+            csize = r.next() as u32;
+            usize_ = r.next() as u32;
+        }
+        _ => {}
+    }
+    if flags & 8 != 0 && r.chance(2, 3) {
+        // streamed entry: sizes and CRC follow the data in a data descriptor
+        crc = 0;
+        csize = 0;
+        usize_ = 0;
+    }
     let mut v = vec![0x50, 0x4b, 3, 4];
-    v.extend_from_slice(&20u16.to_le_bytes());
-    v.extend_from_slice(&0u16.to_le_bytes());
+    v.extend_from_slice(&version.to_le_bytes());
+    v.extend_from_slice(&flags.to_le_bytes());
     v.extend_from_slice(&method.to_le_bytes());
     v.extend_from_slice(&(r.next() as u16).to_le_bytes());
     v.extend_from_slice(&(r.next() as u16).to_le_bytes());
-    v.extend_from_slice(&crc32fast::hash(plain).to_le_bytes());
-    v.extend_from_slice(&(s.len() as u32).to_le_bytes());
-    v.extend_from_slice(&(plain.len() as u32).to_le_bytes());
+    v.extend_from_slice(&crc.to_le_bytes());
+    v.extend_from_slice(&csize.to_le_bytes());
+    v.extend_from_slice(&usize_.to_le_bytes());
     v.extend_from_slice(&(nlen as u16).to_le_bytes());
     v.extend_from_slice(&(xlen as u16).to_le_bytes());
     for _ in 0..nlen {
         v.push(b'a' + r.below(26) as u8);
     }
-    for _ in 0..xlen {
-        v.push(r.next() as u8);
+    let mut extra = zip64_extra;
+    while extra.len() < xlen {
+        extra.push(r.next() as u8);
     }
+    v.extend_from_slice(&extra);
     v.extend_from_slice(s);
+    if flags & 8 != 0 && csize == 0 && r.chance(1, 2) {
+        // data descriptor (with its optional signature)
+        v.extend_from_slice(&[0x50, 0x4b, 7, 8]);
+        v.extend_from_slice(&crc32fast::hash(plain).to_le_bytes());
+        v.extend_from_slice(&(s.len() as u32).to_le_bytes());
+        v.extend_from_slice(&(plain.len() as u32).to_le_bytes());
+    }
     v
 }
 
